@@ -289,7 +289,8 @@ impl Hash for Num {
             Self::Float(f) => {
                 state.write_u8(0);
                 if f.is_finite() {
-                    f.to_ne_bytes().hash(state);
+                    // hash -0.0 like 0.0, because they are equal
+                    (if *f == 0.0 { 0.0 } else { *f }).to_ne_bytes().hash(state);
                 }
             }
             Self::Dec(d) => Self::from_dec_str(d).hash(state),
